@@ -2,6 +2,7 @@ import UsualProofs.C20.Progress
 import UsualProofs.C20.Safety
 import UsualProofs.C20.Exec
 import UsualProofs.C20.Trace
+import UsualProofs.C20.Rank
 /-! # C20 — the compat getaddrinfo_a completes every request exactly once under any schedule
 
 Model: `Usual.C20` (lean/Usual/C20/Gaia.lean), the statements of the repaired usual/netdb.c as a
@@ -222,6 +223,47 @@ theorem no_deadlock {ga : Nat → Int} (s : S) (h : Reach Cfg.fixed ga s) (hp : 
   pending_enabled (reach_inv h) hp
 
 example : Pending stA := Or.inr (Or.inl (by decide +kernel))
+
+-- the resolver may serve queued requests in any order (the property does not pin FIFO): with 7 and
+-- 9 queued, taking 9 first is an execution of the model
+example : ∃ s, Reach Cfg.fixed gaEx s ∧ s.loc 9 = .worker ∧ s.loc 7 = .queued := by
+  let l := subNowait 1 7 3 .thread true ++ subNowait 2 9 3 .signal false ++
+    [(.worker, .wkAcquire), (.worker, .wkPop 9)]
+  exact ⟨(run Cfg.fixed gaEx init l).getD init, run_reach' (l := l) (by decide +kernel), by decide +kernel⟩
+
+/-- **Termination / eventually done.**  Let the submitters be the threads `< N`.  Then, from any
+    reachable state and as long as the environment adds nothing (no new getaddrinfo_a call, no
+    spurious wake-up):
+    * every execution, under ANY scheduler, has at most `rank N s` steps — `rank` is a variant that
+      every non-environment step of every thread strictly decreases (`rank_decreases`); so no
+      fairness beyond "some enabled thread eventually runs" is needed, in particular weak fairness
+      of the resolver and of each submitter suffices;
+    * an execution that cannot be continued ends with nothing pending, every submitted batch
+      finished, notified exactly once, every item resolved exactly once and final;
+    * and such an execution exists. -/
+theorem eventually_done {ga : Nat → Int} (N : Nat) (s : S) (h : Reach Cfg.fixed ga s)
+    (hb : ∀ i, N ≤ i → s.spc i = .idle) :
+    (∀ k s', Run ga s k s' → k ≤ rank N s) ∧
+    (∀ k s', Run ga s k s' → (¬ ∃ t a s'', a.isEnv = false ∧ Step Cfg.fixed ga s' t a s'') →
+       ¬ Pending s' ∧ ∀ b, s'.loc b ≠ .unused →
+         s'.loc b = .finished ∧ s'.notified b = 1 ∧
+         ∀ j, j < s'.nOf b → s'.status b j = .done ∧ s'.resolved b j = 1) ∧
+    (∃ k s', Run ga s k s' ∧ ¬ Pending s') := by
+  refine ⟨fun k s' hr => ?_, fun k s' hr hmax => ?_, run_to_quiescence N (rank N s) s (Nat.le_refl _) h hb⟩
+  · have := (run_bounded hr hb).1; omega
+  · have hr' := Run.reach hr h
+    have hnp : ¬ Pending s' := fun hp => hmax (pending_enabled (reach_inv hr') hp)
+    refine ⟨hnp, fun b hb' => ?_⟩
+    have hf := (no_loss_no_dup s' hr').2.2.2 hnp b hb'
+    have hn := notify_once_after_all s' hr' b
+    exact ⟨hf, hn.2.2 hf, hn.2.1 (hn.2.2 hf)⟩
+
+-- in stA (batch 7 half resolved, batch 9 queued, submitters 1 and 2) at most 16 more steps happen
+example : rank 3 stA = 16 ∧ (∀ i, 3 ≤ i → stA.spc i = .idle) := by
+  refine ⟨by decide +kernel, fun i hi => ?_⟩
+  have e1 : i ≠ 1 := by omega
+  have e2 : i ≠ 2 := by omega
+  simp [stA, schedA, subNowait, run, stepFn, init, e1, e2, publish]
 
 /-- The lazily created context exists at most once. -/
 theorem one_context {ga : Nat → Int} (s : S) (h : Reach Cfg.fixed ga s) : s.nctx ≤ 1 := by
